@@ -1565,9 +1565,14 @@ func (e *Entry) dup() *Entry {
 		}
 	}
 
+	// The statements kept verbatim may be appended to per copy, e.g. by the
+	// merge of a uses statement that has substatements of its own.
 	ne.Extra = make(map[string][]interface{})
 	for k, v := range e.Extra {
-		ne.Extra[k] = v
+		ne.Extra[k] = append([]interface{}(nil), v...)
+	}
+	if len(e.Exts) > 0 {
+		ne.Exts = append([]*Statement(nil), e.Exts...)
 	}
 
 	// The default values may be appended to per copy, e.g. by a deviation.
